@@ -27,3 +27,28 @@ Example C17_premise_met :
   names_ok (OPut (bs "tbl") (it "z" "1") None [] []) = true /\
   fst (step lang_match lang_update V1 w_client (OPut (bs "tbl") (it "z" "1") None [] [])) <> w_client.
 Proof. split; [reflexivity|vm_compute; discriminate]. Qed.
+
+(* C07: the premises of the frame theorem are met by an ordinary update, and its conclusion is what the model computes *)
+From Minidyn Require Import Model.Token Model.Parser Model.Update Proofs.UpdateFrame Proofs.PassThrough Proofs.FMapFacts.
+
+Definition wu_item : item :=
+  [(bs "a", AN (bs "1")); (bs "b", AS (bs "gone")); (bs "c", AL [AS (bs "keep"); AN (bs "2.5"); AM [(bs "x", ANULL)]]); (bs "h", AS (bs "k"))].
+Definition wu_expr : str := bs "SET a = a + :v REMOVE b".
+Definition wu_vals : item := [(bs ":v", AN (bs "41"))].
+
+Example C07_premises_met :
+  exists it' tok acts,
+    lang_update wu_expr wu_item wu_vals [] = Ok it' /\
+    parse_upd wu_expr = Some (EUpdate tok (Some acts), 0) /\
+    (forall a, In a acts -> action_target [] a <> Some (bs "c")) /\
+    plain (AL [AS (bs "keep"); AN (bs "2.5"); AM [(bs "x", ANULL)]]) = true /\
+    lookup (bs "c") it' = Some (AL [AS (bs "keep"); AN (bs "2.5"); AM [(bs "x", ANULL)]]) /\
+    lookup (bs "a") it' = Some (AN (bs "42")) /\ lookup (bs "b") it' = None.
+Proof.
+  destruct (lang_update wu_expr wu_item wu_vals []) as [it'| | |] eqn:U; try (vm_compute in U; discriminate).
+  destruct (parse_upd wu_expr) as [[[| | | | | | | |tok [acts|]| |] [|k]]|] eqn:P; try (vm_compute in P; discriminate).
+  exists it', tok, acts. split; [reflexivity|]. split; [reflexivity|].
+  vm_compute in P. inversion P; subst. vm_compute in U. inversion U; subst.
+  split; [|repeat split; vm_compute; reflexivity].
+  intros a [<-|[<-|[]]]; vm_compute; discriminate.
+Qed.
